@@ -284,13 +284,16 @@ theorem err_shape (c : Cfg) (s : State) (t : Tok) (h : (stepCore c s t).1 = .err
 
 /-! ### a refused lock request -/
 
-theorem dryocMlock_refused {c : Cfg} {m : Mach} {a l : Nat} (hl : l ≠ 0) (hr : m.oracle (m.cnt + 1) = false) :
-    dryocMlock c m a l = (failedLock c m m.k a l, false) := by
+/-- STATEMENT CHANGED (`MADV_DONTDUMP` is modelled now): the `madvise` of `dryoc_mlock` has already run when the
+request is refused, so the kernel handed to the failure path is `madviseK … true`, not `m.k` -/
+theorem dryocMlock_refused {c : Cfg} {m : Mach} {a l : Nat} (hl : l ≠ 0) (hr : m.oracle (m.cnt + 1) = .refuse) :
+    dryocMlock c m a l = (failedLock c m (madviseK c.P m.k a l true) a l, false) := by
   unfold dryocMlock; simp [hl, hr]
 
 theorem lockV_refused {c : Cfg} {m : Mach} {v : PVec} (pm : LM × PM) (hl : v.len ≠ 0)
-    (hr : m.oracle (m.cnt + 1) = false) :
-    lockV c m v pm = (protDrop c (failedLock c m m.k (ptr c v) v.len) v pm.1 pm.2, false) := by
+    (hr : m.oracle (m.cnt + 1) = .refuse) :
+    lockV c m v pm =
+      (protDrop c (failedLock c m (madviseK c.P m.k (ptr c v) v.len true) (ptr c v) v.len) v pm.1 pm.2, false) := by
   unfold lockV; simp [dryocMlock_refused hl hr]
 
 /-- the drop of an (internally) unlocked region never touches a lock flag -/
@@ -311,8 +314,8 @@ theorem munlockK_locked_false {P : Nat} {k : Kernel} {a l p : Nat} (h : k.locked
     (munlockK P k a l).locked p = false := by
   simp only [munlockK, setRange_apply]; split <;> simp [h]
 
-theorem failedLock_locked_false {c : Cfg} {m : Mach} {a l p : Nat} (h : m.k.locked p = false) :
-    (failedLock c m m.k a l).k.locked p = false := by
+theorem failedLock_locked_false {c : Cfg} {m : Mach} {k : Kernel} {a l p : Nat} (h : k.locked p = false) :
+    (failedLock c m k a l).k.locked p = false := by
   unfold failedLock; simp only []
   split
   · exact munlockK_locked_false h
